@@ -396,7 +396,7 @@ func (ex *Exec) execFor(s *ast.ForStmt, st *State, label string) *Flow {
 	}
 	unroll, invs, havoc, _ := ex.loopClauses(s)
 	if len(invs) > 0 {
-		r := ex.execLoopInv(s, s.Cond, s.Body, s.Post, st, label, invs, havoc)
+		r := ex.execLoopInv(s, s.Cond, s.Body, s.Post, st, label, invs, havoc, false, nil)
 		ex.popScope(ex.flowStates(r)...)
 		return r
 	}
